@@ -214,6 +214,32 @@ CHECKS['C18'] = dict(
     'exercised by the payload catalogue (thorough: hypothesis payloads), not modelled; asyncio runs a sender\'s continuation before '
     'dispatching that record\'s response (stated environment assumption LoopOrder)')
 
+MGRNOTE = ('TLC; a real ServerProcess with real client processes driven by a command interpreter over pipes; quiescence polling (the server '
+           'drops temporaries asynchronously) with the corresponding internal actions in the spec; argument/value catalogues')
+CHECKS['C13'] = dict(
+    technique='TLA+ spec RefCount (refcounts, proxies per holder, pickles in transit with a two-step rebuild, server temporaries, '
+              'containers, process exit, shared memory) checked by TLC for Count, NoPrematureDestroy, ShmSafe and the liveness '
+              'properties NoLeak / ShmReleased / AllGone; two as-found flags refuted; TLC-generated histories executed on a real '
+              'ServerProcess with refcounts / live handles / shm files compared after every step (spec -> code) and random long '
+              'histories validated by TLC trace validation (code -> spec)',
+    text='Histories over create, pickle, rebuild (normal / in-server / inheriting), store in and remove from hosted containers, '
+         'managed() returns, delete, process exit for 2-3 client processes and up to 7 object ids are explored exhaustively by TLC. '
+         'Trap goals, simulated histories (depth 40) and the two as-found counterexamples (as probes the real server must not follow) '
+         'are executed against a fresh real ServerProcess each; after every external action debug_info refcounts, usability of every '
+         'live proxy, container keys and /dev/shm/<name> must equal the spec state.',
+    design_ref='DESIGN.md section 6 C13', note=MGRNOTE)
+CHECKS['C14'] = dict(
+    technique='TLA+ spec ProxyCall (hosted list / dict / Namespace / Value / custom class as sequential objects, every generated '
+              'proxy operation defined as (new state, result | error); callers in two threads, a child process and inside the '
+              'server; managed() aliasing) checked by TLC (SameAsDirect, ErrorsAreNoOps, AliasView, ConnUsable); three as-found '
+              'flags refuted; TLC histories replayed on the real ServerProcess against a local shadow object; concurrent histories '
+              'linearized by TLC trace validation',
+    text='Every call made through a proxy is compared with the spec result and with the same call made directly on a local shadow '
+         'object (exact values, exception class and args, is_remote_exception, server traceback text, next call on the same proxy '
+         'works); managed() results must alias the contained value.  Concurrent callers under the OS schedule are validated by a '
+         'trace spec that searches a linearization respecting per-caller and real-time order.',
+    design_ref='DESIGN.md section 6 C14', note=MGRNOTE)
+
 ALL = ['C%02d' % i for i in range(1, 21)]
 
 
